@@ -448,6 +448,9 @@ def run(ctx):
     r11g(ctx)
     r11h(ctx)
     r11i(ctx)
+    # two saves write the same content only if saving never re-reads a part that is already in memory (rule shared with C03)
+    from .c03 import r03a
+    r03a(ctx)
 
 
 from ..selftest import Seed, unparse_seed  # noqa: E402
